@@ -5,22 +5,48 @@ package main
 
 import (
 	"bufio"
+	"encoding/hex"
 	"flag"
 	"fmt"
 	"math/rand"
 	"os"
+	"path/filepath"
 	"sort"
 	"strings"
 
+	"github.com/0xrawsec/sod"
 	"github.com/0xrawsec/sod/vshim"
 )
 
-func runHistory(w *bufio.Writer, id int, seed int64, p Profile, lines []string, cfg *Cfg, virtual bool) (fails int) {
+var keepDir string // -keep: final directory, uuid map and trace of every history are kept here
+
+func copyDir(src, dst string) {
+	filepath.Walk(src, func(p string, info os.FileInfo, err error) error {
+		if err != nil {
+			return nil
+		}
+		rel, _ := filepath.Rel(src, p)
+		if info.IsDir() {
+			os.MkdirAll(filepath.Join(dst, rel), 0700)
+			return nil
+		}
+		b, _ := os.ReadFile(p)
+		os.WriteFile(filepath.Join(dst, rel), b, 0600)
+		return nil
+	})
+}
+
+func runHistory(w0 *bufio.Writer, id int, seed int64, p Profile, lines []string, cfg *Cfg, virtual bool) (fails int) {
 	root, err := os.MkdirTemp("", "hz")
 	if err != nil {
 		panic(err)
 	}
 	defer os.RemoveAll(root)
+	w := w0
+	var hb strings.Builder
+	if keepDir != "" {
+		w = bufio.NewWriter(&hb)
+	}
 	r := rand.New(rand.NewSource(seed))
 	mo := p.MaxOps
 	p = profile(p.Name) // fresh weight map: histories must not share mutable state
@@ -86,7 +112,9 @@ func runHistory(w *bufio.Writer, id int, seed int64, p Profile, lines []string, 
 		for _, l := range []string{"count", "all", "dump", "fs"} {
 			e.Step(l)
 		}
-		if p.Name != "C10" {
+		if p.Name == "golden" {
+			e.Step("close")
+		} else if p.Name != "C10" {
 			for _, l := range []string{"close", "reopen", "count", "all", "dump", "fs"} {
 				e.Step(l)
 			}
@@ -96,6 +124,117 @@ func runHistory(w *bufio.Writer, id int, seed int64, p Profile, lines []string, 
 		e.db.Close()
 		e.drainFlushers()
 	}
+	fmt.Fprintf(w, "end %d\n", id)
+	if keepDir != "" {
+		w.Flush()
+		w0.WriteString(hb.String())
+		d := filepath.Join(keepDir, fmt.Sprintf("h%03d", id))
+		os.MkdirAll(d, 0700)
+		copyDir(root, filepath.Join(d, "db"))
+		os.WriteFile(filepath.Join(d, "trace.txt"), []byte(hb.String()), 0600)
+		os.WriteFile(filepath.Join(d, "umap.txt"), []byte(strings.Join(e.uu[1:], "\n")+"\n"), 0600)
+	}
+	return e.spec.fails
+}
+
+// runGolden: a directory written by the PINNED release (with the history that produced it) is
+// opened by the current tree. The recorded ops are replayed on the model only ("r *" = not
+// compared); then the current tree reads, searches, writes, closes and reopens.
+func runGolden(w *bufio.Writer, id int, seed int64, dir string) (fails int) {
+	root, _ := os.MkdirTemp("", "hzg")
+	defer os.RemoveAll(root)
+	copyDir(filepath.Join(dir, "db"), root)
+	data, err := os.ReadFile(filepath.Join(dir, "trace.txt"))
+	if err != nil {
+		panic(err)
+	}
+	um, _ := os.ReadFile(filepath.Join(dir, "umap.txt"))
+	var cfg Cfg
+	cfg.Ext = ".json"
+	for i := range cfg.Cons {
+		cfg.Cons[i] = "0000"
+	}
+	type rop struct {
+		op  string
+		obs []string
+	}
+	var rops []rop
+	for _, l := range strings.Split(string(data), "\n") {
+		t := strings.Fields(l)
+		if len(t) == 0 {
+			continue
+		}
+		switch t[0] {
+		case "cfg":
+			cfg.applyKV(parseKV(t[1:]))
+		case "fields":
+			copy(cfg.Cons[:], t[1:])
+		case "op":
+			rops = append(rops, rop{op: strings.Join(t[1:], " ")})
+		case "o", "r":
+			if len(rops) > 0 {
+				rops[len(rops)-1].obs = append(rops[len(rops)-1].obs, l)
+			}
+		}
+	}
+	fmt.Fprintf(w, "hist %d seed=%d profile=C18 golden=%s\n", id, seed, filepath.Base(dir))
+	for _, l := range cfg.Lines() {
+		fmt.Fprintln(w, l)
+	}
+	vshim.SetVirtual(true)
+	e := NewExec(root, cfg, w, seed^0x5eed)
+	e.virtual = true
+	e.spec.prop = "C18"
+	for _, u := range strings.Fields(string(um)) {
+		e.unum(u)
+	}
+	nextSid = 1000
+	e.spec.mute = true
+	for _, ro := range rops {
+		fmt.Fprintln(w, "op "+ro.op)
+		e.obs = e.obs[:0]
+		t := strings.Fields(ro.op)
+		e.oracles(t) // case / regex tables recomputed by the current Go (and registered)
+		for _, l := range ro.obs {
+			if strings.HasPrefix(l, "o ") && !strings.HasPrefix(l, "o case") && !strings.HasPrefix(l, "o rx") {
+				fmt.Fprintln(w, l)
+			}
+			if !strings.HasPrefix(l, "o case") && !strings.HasPrefix(l, "o rx") {
+				e.obs = append(e.obs, l)
+			}
+		}
+		fmt.Fprintln(w, "r *")
+		e.spec.Check(e, t)
+		if t[0] == "create" && len(ro.obs) > 0 {
+			c := e.cfg
+			c.applyKV(parseKV(t[1:]))
+			e.cfg.Cache, e.cfg.Async, e.cfg.Thr, e.cfg.To = c.Cache, c.Async, c.Thr, c.To
+		}
+	}
+	e.spec.mute = false
+	// the model's handle is whatever the recorded history left: start from a fresh one on both sides
+	r := rand.New(rand.NewSource(seed))
+	p := profile("C18")
+	for _, l := range []string{"reopen", "count", "all", "dump", "fs"} {
+		e.Step(l)
+	}
+	// search sweep: every operator at every stored key of a few fields
+	for k := 0; k < 12; k++ {
+		nextSid++
+		e.Step(fmt.Sprintf("search %d %s", nextSid, e.genCmp(r)))
+		e.Step(fmt.Sprintf("collect %d -1 0 %d", nextSid, e.collectMode(nextSid, -1)))
+	}
+	for n := 0; n < 20; {
+		for _, l := range e.GenOp(r, p) {
+			e.Step(l)
+			n++
+		}
+	}
+	for _, l := range []string{"count", "all", "dump", "fs", "close", "reopen", "count", "all", "dump", "fs", "control"} {
+		e.Step(l)
+	}
+	e.db.Close()
+	e.drainFlushers()
 	fmt.Fprintf(w, "end %d\n", id)
 	return e.spec.fails
 }
@@ -235,6 +374,12 @@ func main() {
 	out := flag.String("out", "", "trace file (default stdout)")
 	replay := flag.String("replay", "", "replay file: cfg/fields header lines then op lines (one history)")
 	maxops := flag.Int("maxops", 0, "override profile MaxOps")
+	shards := flag.Int("shards", 1, "golden mode: number of shards")
+	shard := flag.Int("shard", 0, "golden mode: this shard")
+	keep := flag.String("keep", "", "keep the final directory, uuid map and trace of every history under this directory")
+	golden := flag.String("golden", "", "C18: directory of golden databases (written by the pinned release) to open with the current tree")
+	conc := flag.Bool("conc", false, "C08: concurrent workloads on one handle (build with -race)")
+	snake := flag.Bool("snake", false, "C18: print camelToSnake of every string over a small alphabet (hex in, hex out)")
 	pair := flag.Bool("pair", false, "C12: run every history under a pair of configurations and compare (model-free)")
 	flag.Parse()
 
@@ -256,6 +401,49 @@ func main() {
 	}
 	virtual := true // the flusher's sleeps always go through the virtual clock: ticks are explicit events
 	fails := 0
+	keepDir = *keep
+	if *conc {
+		for i := 0; i < *n; i++ {
+			fails += runConc(w, *first+i, *seed*1000003+int64(*first+i))
+			w.Flush()
+		}
+		return
+	}
+	if *golden != "" {
+		ents, _ := os.ReadDir(*golden)
+		k := 0
+		for _, en := range ents {
+			if !en.IsDir() {
+				continue
+			}
+			if k%*shards == *shard {
+				fails += runGolden(w, k, *seed*1000003+int64(k), filepath.Join(*golden, en.Name()))
+			}
+			k++
+		}
+		w.Flush()
+		return
+	}
+	if *snake {
+		// every string over a small alphabet up to length 6 through the implementation's camelToSnake
+		alpha := []byte("aB1_.Zc")
+		var rec func(prefix []byte, n int)
+		rec = func(prefix []byte, n int) {
+			fmt.Fprintf(w, "%s %s\n", hex.EncodeToString(prefix), hex.EncodeToString([]byte(sod.VerifCamelToSnake(string(prefix)))))
+			if n == 0 {
+				return
+			}
+			for _, c := range alpha {
+				rec(append(append([]byte{}, prefix...), c), n-1)
+			}
+		}
+		rec(nil, 6)
+		for _, s := range []string{"shape.Rec", "shape.Other", "TestTEST", "TestTest", "main.myStruct2", "pkg.HTTPServer", "a.B1C", "X", "pkg.ABC1def"} {
+			fmt.Fprintf(w, "%s %s\n", hex.EncodeToString([]byte(s)), hex.EncodeToString([]byte(sod.VerifCamelToSnake(s))))
+		}
+		w.Flush()
+		return
+	}
 	if *pair {
 		for i := 0; i < *n; i++ {
 			id := *first + i
